@@ -67,7 +67,8 @@ class heap(object):
         return the future checnk address
         """
         ret = self.addr
-        self.addr = (self.addr + size + self.align - 1)
+        # A zero-sized chunk still owns its address: reserve at least one byte
+        self.addr = (self.addr + max(size, 1) + self.align - 1)
         self.addr &= self.mask ^ (self.align - 1)
         return ret
 
